@@ -109,7 +109,7 @@ pub fn run(ctx: &Ctx, ev: &mut Ev) {
     // (e) seeded long grammar-based streams, every start alignment
     if ctx.want("long") {
         let mut r = ctx.rng(1);
-        let n = ctx.budget(60_000, 2_000_000);
+        let n = ctx.budget(60_000, 10_000_000);
         for i in 0..n {
             let enc = ALL[r.below(40)];
             let s = random_stream(&mut r, enc, if i % 50 == 0 { 40 } else { 6 });
